@@ -65,6 +65,9 @@ OP = st.one_of(
     st.tuples(st.just("get%"), st.integers(0, 5)), st.tuples(st.just("seti%"), st.integers(0, 5)),
     st.tuples(st.just("sets%"), st.integers(0, 5)), st.tuples(st.just("del%"), st.integers(0, 5)),
     st.tuples(st.just("rem%"), st.integers(0, 5)),
+    # register a (do-nothing) change handler on a name: the object gets its own copy of the governing trait for that name
+    # (same policy); for a name never resolved before this is ALSO its first resolution
+    st.tuples(st.just("listen"), st.sampled_from(NAMES)), st.tuples(st.just("listen%"), st.integers(0, 5)),
     # shadow/unshadow cycle on one name: add an instance trait, use it, remove it, use the name again
     st.tuples(st.just("cycle"), st.sampled_from(NAMES), st.sampled_from(KINDS),
               st.lists(st.sampled_from(["get", "seti", "sets", "del"]), max_size=2),
@@ -92,6 +95,9 @@ def strategy(tier):
         "redecl": st.one_of(st.none(), st.integers(0, 5)), "clash": st.booleans(),
         "late": st.lists(st.tuples(st.integers(0, 2), st.sampled_from(PREFIXES[1:] + NAMES[:12]), st.booleans(), st.sampled_from(KINDS)).map(list),
                          max_size=2),
+        # the listener declares ALL names of the `declare` set (not only the one being resolved) at the first resolution of any
+        # of them (kinds are then restricted to Int / Str / Any)
+        "declare_all": st.booleans(),
         "declare": st.one_of(st.just({}), st.just({}), st.dictionaries(st.sampled_from(NAMES), st.sampled_from(KINDS), min_size=1, max_size=6)),
     })
 
@@ -211,6 +217,10 @@ class Model:
         return ("ok", None)
 
 
+def _noop():
+    pass
+
+
 def outcome(f):
     try:
         return ("ok", f())
@@ -289,10 +299,16 @@ def run(case, ctx):
         ctx.label("mixin")
     res = Resolver(base, levels, mixin)
     declare = dict(case.get("declare") or {})
+    declare_all = bool(case.get("declare_all")) and bool(declare)
+    if declare_all:
+        declare = {n_: (k_ if k_ in ("Int", "Str", "Any") else "Int") for n_, k_ in declare.items()}
+        ctx.label("declare-all-on-first-use")
     if declare:
         def _trait_added_changed(self, name):
-            if name in declare and name not in self._instance_traits():
-                self.add_trait(name, mk(declare[name]))
+            if name in declare:
+                for n_ in (sorted(declare) if declare_all else [name]):
+                    if n_ not in self._instance_traits():
+                        self.add_trait(n_, mk(declare[n_]))
         cls = type("Declaring", (cls,), {"_trait_added_changed": _trait_added_changed})
         ctx.label("declare-on-first-use")
     # late declarations: the whole family exists already (subclasses included), no instance has been touched yet
@@ -303,6 +319,7 @@ def run(case, ctx):
     explicit = set()
     for ex, wc in levels + ([mixin] if mixin else []):
         explicit.update(ex)
+    cloned = set()           # names for which the object got its own copy of the governing trait (a handler was registered)
     cached = set()           # names the class has already resolved through a wildcard / its default (it caches the result)
     o = cls()
     inst = {}
@@ -318,12 +335,23 @@ def run(case, ctx):
             flat.extend([x, op[1]] for x in op[4])
         else:
             flat.append(op)
+    def declared_by_listener(fires, name):
+        """add_trait for a NEW name fires trait_added too: a declare-all listener then declares the other names."""
+        if fires and declare_all and name in declare:
+            for n_ in sorted(declare):
+                if n_ not in inst and n_ not in cloned:
+                    inst[n_] = declare[n_]
+                    if n_ not in touched:
+                        touched.append(n_)
+
     for op in flat:
         k, name = op[0], op[1]
         if k.endswith("%"):
             if not declare:
                 continue
             k, name = k[:-1], sorted(declare)[op[1] % len(declare)]
+        if k == "listen" and (name in inst or name + "_items" in inst or name.endswith("_items")):
+            continue
         if k.endswith("@"):
             if not touched:
                 continue
@@ -336,9 +364,11 @@ def run(case, ctx):
                 continue          # (an event trait over a name that already holds a value: see ASSUMPTIONS)
             if name not in touched:
                 touched.append(name)
+            fires = name not in inst and name not in explicit and name not in cached
             o.add_trait(name, List(Int))
             inst[name] = "ListInt"
             inst[name + "_items"] = "ItemsEvent"
+            declared_by_listener(fires, name)
             interesting = True
             ctx.label("container-instance-trait-added")
             continue
@@ -347,8 +377,10 @@ def run(case, ctx):
                 touched.append(name)
             if name in m.store and op[2] in ("Constant", "Event", "Disallow", "ReadOnly5"):
                 continue
+            fires = name not in inst and name not in explicit and name not in cached
             o.add_trait(name, mk(op[2]))
             inst[name] = op[2]
+            declared_by_listener(fires, name)
             interesting = True
             ctx.label("instance-trait-added")
             continue
@@ -367,11 +399,19 @@ def run(case, ctx):
             # first resolution of this name by the class: `trait_added` fires, the listener may declare an instance trait
             cached.add(name)
             if name in declare:
-                inst[name] = declare[name]
-                if name not in touched:
-                    touched.append(name)
+                for n_ in (sorted(declare) if declare_all else [name]):
+                    if n_ in inst or n_ in cloned:
+                        continue         # (the listener only declares names that have no instance trait yet)
+                    inst[n_] = declare[n_]
+                    if n_ not in touched:
+                        touched.append(n_)
                 interesting = True
                 ctx.label("declared-during-first-resolution")
+        if k == "listen":
+            o.on_trait_change(_noop, name)
+            cloned.add(name)             # the object now has its own COPY of the governing trait (an instance trait, same policy)
+            ctx.label("handler-registered-on-a-name")
+            continue
         kind, src = res.resolve(inst, name)
         ctx.label("governed-by:" + src)
         if src in ("prefix-multi", "mixin"):
